@@ -38,6 +38,10 @@ static void vx_push(int kind, int path, int tok)
 static size_t vx_n, vx_k; static uint8_t* vx_ekind; static size_t vx_replayed, vx_next_expected; static bool vx_order_bad, vx_stop; static unsigned vx_k_replays; static uint8_t vx_k_kind;
 static size_t vx_last;
 static void vx_replay(size_t idx, int kind, int* ec) { if (vx_replayed > 0 && idx >= vx_last) vx_order_bad = true; vx_last = idx; if (idx == vx_k) { vx_k_replays++; vx_k_kind = (uint8_t)kind; } vx_replayed++; if (vx_stop) { *ec = 1; } }
+/* definite_path: location = vx_ntok reference tokens; the parent (all tokens but the last) resolves or not, to an array of vx_parent_size elements or to something else */
+static size_t vx_ntok, vx_copied, vx_parent_size, vx_appended_value; static bool vx_last_is_dash, vx_parent_ok, vx_parent_is_array, vx_returned_same, vx_returned_new, vx_appended, vx_copy_bad;
+static void vx_copy_token(size_t idx) { if (idx != vx_copied) vx_copy_bad = true; vx_copied++; }
+/*@FUNC definite_path@*/
 /*@FUNC patch_operation@*/
 /*@FUNC unwinder_replay@*/
 #ifdef VX_CBMC
@@ -47,6 +51,12 @@ void h_patch_operation(void)
     vx_op = nondet_int(); vx_has_op = nondet_bool(); vx_has_path = nondet_bool(); vx_has_value = nondet_bool(); vx_has_from = nondet_bool(); vx_test_differs = nondet_bool(); vx_state = nondet_u8();
     vx_tok = 0; vx_get_valid = false; vx_pending = false; vx_edits = 0; vx_pushes = 0; vx_ec = 0;
     patch_operation(&vx_ec);
+}
+void h_definite_path(void)
+{
+    vx_ntok = nondet_size(); __CPROVER_assume(vx_ntok <= 100000000); vx_last_is_dash = nondet_bool(); vx_parent_ok = nondet_bool(); vx_parent_is_array = nondet_bool(); vx_parent_size = nondet_size();
+    vx_copied = 0; vx_returned_same = false; vx_returned_new = false; vx_appended = false; vx_copy_bad = false;
+    definite_path();
 }
 void h_unwinder_replay(void)
 {
